@@ -275,6 +275,11 @@ fn interpolate_poly<E: Pairing>(
     res
 }
 
+#[cfg(feature = "verif-hooks")]
+pub(crate) fn verif_hooks_vanishing_polynomial<F: Field>(points: &[F]) -> Vec<F> {
+    vanishing_polynomial(points).coeffs
+}
+
 /// The polynomial in \\(\FF\\) that vanishes in all the points `points`.
 pub(crate) fn vanishing_polynomial<F: Field>(points: &[F]) -> DensePolynomial<F> {
     let one = DensePolynomial::from_coefficients_vec(vec![F::one()]);
